@@ -678,6 +678,13 @@ fn main() {
         nesting_child(&argv[2], argv[3].parse().unwrap());
         return;
     }
+    if argv.len() >= 3 && argv[1] == "probe" {
+        for t in &argv[2..] {
+            let o = run_parse(t);
+            println!("{:?} -> {} | model-line: {}", t, match &o { Out::Ok(c) => format!("Ok {}", render::r_command(c)), Out::Err(e) => format!("Err({e})"), Out::Panic(m) => format!("PANIC {m}") }, impl_line(t, &o));
+        }
+        return;
+    }
     let a = parse_args();
     match a.stream.as_str() {
         "parse" => stream_parse(&a),
